@@ -62,7 +62,49 @@ def _scenarios():
     #    its bytes  (seeded C04-e merged chunks that are closer than the alignment)
     out.append(("unaligned a ; tiny b (shorter than the alignment) ; c ; free a ; free c ; request a+b+c must not be served over b", {}, [("alloc", x, False), ("alloc", y, False), ("alloc", z, False), ("free", 0), ("free", 2), ("get_free",), ("alloc", x + y + z, False)],
                 [W(C=512, x=13, y=3, z=24, A=8), W(C=4096, x=45, y=3, z=64, A=16)], "y < A, x + y a multiple of A, x not; 2 (x + y + z) < C"))
+    # 10. the buffer is exactly full, a region in the MIDDLE is freed, then a request larger than that hole: the new space
+    #     comes after the live tail (a new chunk at the old capacity); the hole in the middle keeps its bounds
+    #     (seeded C12-h: an in-place growth stretched "the last free chunk" -- the hole -- over the live tail)
+    out.append(("a ; b ; c fills exactly ; free b ; request larger than the hole (growth behind a live tail)", {}, [("alloc", x, False), ("alloc", y, False), ("alloc", C - x - y, False), ("free", 1), ("alloc", z, False), ("get_free",), ("alloc", y, False)],
+                [W(C=304, x=50, y=60, z=100, A=8), W(C=1024, x=120, y=130, z=400, A=16)], "x + y < C, y < z <= C"))
     return out
+
+
+# the allocator is inherited by both CPU buffer kinds (C04/C12: "both CPU buffer kinds"); a subclass may override any part
+CLASSES = (("context", "XBuffer"), ("context_cpu", "BufferNumpy"), ("context_cpu", "BufferByteArray"))
+
+
+def _mkstore(I, cap, tag):
+    """abstract native storage of symbolic length: what an allocator may do to it in place is modelled (extend by a run
+    of zero bytes, len); anything else is a gap of the model"""
+    s = Obj("storage", {}, name=tag)
+    s.length = topoly(cap)
+
+    def extend(x):
+        n = getattr(x, "zlen", None)
+        if n is None and isinstance(x, (bytes, bytearray)):
+            n = K(len(x))
+        if n is None:
+            raise AnalysisError(f"[AH] {tag}.extend({x!r}): length unknown")
+        s.length = s.length + n
+
+    s.attrs["extend"] = Builtin("extend", extend)
+    s.attrs["__len__"] = Builtin("len", lambda: Sym(s.length))
+    return s
+
+
+def _zeros(I):
+    old = I.builtins["bytes"]
+
+    def mk(x=b"", *a):
+        if isinstance(x, Sym):
+            z = Obj("zeros", {}, name=f"bytes({topoly(x)!r})")
+            z.zlen = topoly(x)
+            z.attrs["__len__"] = Builtin("len", lambda: Sym(z.zlen))
+            return z
+        return I.call(old, [x, *a], {})
+
+    return Builtin("bytes", mk)
 
 
 @rule("AH", ["C12", "C04"], "allocator histories with symbolic sizes, from the real constructor: after every step of {allocate, free, growth} sequences the returned offset, free list, capacity and get_free() equal the first-fit / coalescing reference")
@@ -74,7 +116,7 @@ def ah(cx):
     m.func("context::XBuffer.__init__")
     n_steps = 0
     undecided = []
-    for sc_ in _scenarios():
+    for sc_ in [(c,) + s_ for c in CLASSES for s_ in _scenarios()]:
         try:
             n_steps += _one(cx, m, f_alloc, *sc_)
         except AnalysisError as e:
@@ -103,13 +145,15 @@ def ah(cx):
         raise AnalysisError(f"{len(undecided)} allocator histories are not decided: {undecided[0]}")
     for u in undecided:
         cx.note(f_alloc, detail=f"history not decided: {u[:200]}")
-    cx.need(n_steps >= 45 or undecided, f"only {n_steps} history steps evaluated")
+    cx.need(n_steps >= 150 or undecided, f"only {n_steps} history steps evaluated")
 
 
-def _one(cx, m, f_alloc, name, ctor_kw, steps, wits, cond):
+def _one(cx, m, f_alloc, klass, name, ctor_kw, steps, wits, cond):
     n_steps = 0
+    name = f"{klass[1]}: {name}"
     if True:
         I = Interp(m)
+        I.builtins["bytes"] = _zeros(I)
         reg = {}
         ws = [_Witness(dict(w), w["A"]) for w in wits]
 
@@ -190,11 +234,11 @@ def _one(cx, m, f_alloc, name, ctor_kw, steps, wits, cond):
         out = {"log": []}
 
         def thunk():
-            XB = I.global_lookup("context", "XBuffer")
+            XB = I.global_lookup(*klass)
             me = Obj("instance", {}, cls=XB)
             ctx = Obj("context", {"minimum_alignment": Sym(P("A"))}, name="ctx")
             me.attrs["_make_context"] = Builtin("_make_context", lambda: ctx)
-            me.attrs["_new_buffer"] = Builtin("_new_buffer", lambda c: (I.effects.append(Effect("new_buffer", size=c)), Opaque(f"storage{len(I.effects)}"))[1])
+            me.attrs["_new_buffer"] = Builtin("_new_buffer", lambda c: (I.effects.append(Effect("new_buffer", size=c)), _mkstore(I, c, f"storage{len(I.effects)}"))[1])
             me.attrs["copy_to_native"] = Builtin("copy_to_native", lambda *a, **k: I.effects.append(Effect("copy_to_native", args=a, kwargs=k)))
             kw = {"capacity": Sym(P("C"))}
             for k_, v_ in ctor_kw.items():
@@ -250,7 +294,7 @@ def _one(cx, m, f_alloc, name, ctor_kw, steps, wits, cond):
             if problem:
                 break
         if problem is None and exc is not None:
-            if exc.etype in ("AttributeError", "NameError", "TypeError", "KeyError") and "no attribute" in str(exc.msg) and "instance XBuffer" not in str(exc.msg):
+            if exc.etype in ("AttributeError", "NameError", "TypeError", "KeyError") and "no attribute" in str(exc.msg) and f"instance {klass[1]}" not in str(exc.msg):
                 raise AnalysisError(f"[AH] `{name}` cannot be evaluated: {exc.etype}: {exc.msg}")
             problem = (len(out["log"]), f"step {len(out['log']) + 1} raises {exc.etype}: {exc.msg}")
         if problem:
